@@ -1,6 +1,7 @@
 From Coq Require Import ZArith List Bool.
 From RV Require Import Base.Wire Base.Text Lang.Escape Lang.Sections.
 From RV Require Lang.StmtAst Lang.Transl Lang.Scope Wire.C01_stmtW.
+From RV Require Lang.Headers Lang.FnSelect.
 Import ListNotations.
 Open Scope Z_scope.
 
@@ -17,7 +18,15 @@ Open Scope Z_scope.
      (4 ... same ...) -> the same for stitch_proto / guard_proto
      (5 pre mainopt)  -> annotated statement program (encoding of Wire/C01_stmtW.v) through
                          Lang.Transl.transl and Lang.Scope:
-                         (0 1 setup_ok loop_ok all_ok_with_aug setup_has_no_toplevel_local) | (0 0) rejected *)
+                         (0 1 setup_ok loop_ok all_ok_with_aug setup_has_no_toplevel_local) | (0 0) rejected
+     (6 decls)        -> top-level device declarations ((name kind) ...), kind 0 none 1 Servo 2 parallel LCD 3 I2C LCD,
+                         through Lang.Headers: (0 includes objects headers_ok elif_variant_ok)
+                         includes = header codes 0 Arduino 1 Servo 2 LiquidCrystal 3 Wire 4 LiquidCrystal_I2C,
+                         objects = ((name kind) ...)
+     (7 fns)          -> the function-selection loop of parse() (Lang.FnSelect):
+                         fns = ((name variants used aliases primaryopt) ...), a signature = list of labels,
+                         label = 0 int 1 float 2 bool 3 String 4 void | (5 label) list | (6 code) other
+                         -> (0 selected no_redefinition)   selected = ((name sig) ...) *)
 
 Definition un_body (v : wv) : option body :=
   match v with
@@ -55,6 +64,74 @@ Definition enc_items (l : list item) (g : bool) : wv :=
         wbool (wf_order l);
         wbool g;
         WL (map (fun pu => WL [WI (fst pu); WI (snd pu)]) (undeclared l)) ].
+
+Section UnList.
+  Context {A : Type} (f : wv -> option A).
+  Fixpoint un_list_l (l : list wv) : option (list A) :=
+    match l with
+    | [] => Some []
+    | v :: r => match f v, un_list_l r with Some a, Some b => Some (a :: b) | _, _ => None end
+    end.
+  Definition un_list (v : wv) : option (list A) := match v with WL l => un_list_l l | _ => None end.
+End UnList.
+
+Definition un_decl (v : wv) : option Headers.decl :=
+  match v with
+  | WL [WI n; WI 0] => Some (n, None)
+  | WL [WI n; WI 1] => Some (n, Some Headers.LServo)
+  | WL [WI n; WI 2] => Some (n, Some Headers.LLcdPar)
+  | WL [WI n; WI 3] => Some (n, Some Headers.LLcdI2C)
+  | _ => None
+  end.
+
+Definition enc_lib (k : Headers.lib) : Z :=
+  match k with Headers.LServo => 1 | Headers.LLcdPar => 2 | Headers.LLcdI2C => 3 end.
+
+Definition enc_hdr (h : Headers.hdr) : Z :=
+  match h with
+  | Headers.HArduino => 0 | Headers.HServo => 1 | Headers.HLiquidCrystal => 2
+  | Headers.HWire => 3 | Headers.HLiquidCrystalI2C => 4
+  end.
+
+Fixpoint un_lbl (v : wv) : option FnSelect.lbl :=
+  match v with
+  | WI 0 => Some FnSelect.LInt
+  | WI 1 => Some FnSelect.LFloat
+  | WI 2 => Some FnSelect.LBool
+  | WI 3 => Some FnSelect.LString
+  | WI 4 => Some FnSelect.LVoid
+  | WL [WI 5; e] => option_map FnSelect.LList (un_lbl e)
+  | WL [WI 6; WI c] => Some (FnSelect.LOther c)
+  | _ => None
+  end.
+
+Fixpoint enc_lbl (l : FnSelect.lbl) : wv :=
+  match l with
+  | FnSelect.LInt => WI 0 | FnSelect.LFloat => WI 1 | FnSelect.LBool => WI 2
+  | FnSelect.LString => WI 3 | FnSelect.LVoid => WI 4
+  | FnSelect.LList e => WL [WI 5; enc_lbl e]
+  | FnSelect.LOther c => WL [WI 6; WI c]
+  end.
+
+Definition un_sig : wv -> option FnSelect.sig := un_list un_lbl.
+
+Definition un_alias (v : wv) : option (FnSelect.sig * FnSelect.sig) :=
+  match v with
+  | WL [a; c] => match un_sig a, un_sig c with Some x, Some y => Some (x, y) | _, _ => None end
+  | _ => None
+  end.
+
+Definition un_fentry (v : wv) : option (Z * FnSelect.fentry) :=
+  match v with
+  | WL [WI n; vs; us; al; WL po] =>
+      match un_list un_sig vs, un_list un_sig us, un_list un_alias al,
+            match po with [] => Some None | [p] => option_map Some (un_sig p) | _ => None end with
+      | Some a, Some b, Some c, Some d =>
+          Some (n, {| FnSelect.fe_variants := a; FnSelect.fe_used := b; FnSelect.fe_aliases := c; FnSelect.fe_primary := d |})
+      | _, _, _, _ => None
+      end
+  | _ => None
+  end.
 
 Definition run (v : wv) : wv :=
   match v with
@@ -105,6 +182,23 @@ Definition run (v : wv) : wv :=
           | None => wok [WI 0]
           end
       | _, _ => wbad
+      end
+  | WL [WI 6; ds] =>
+      match un_list un_decl ds with
+      | Some l =>
+          let st := Headers.hrun l in
+          wok [ WL (map (fun h => WI (enc_hdr h)) (Headers.includes l));
+                WL (map (fun o => WL [WI (fst o); WI (enc_lib (snd o))]) (Headers.objects l));
+                wbool (Headers.headers_ok (Headers.includes l) (Headers.objects l));
+                wbool (Headers.headers_ok (Headers.includes_elif st) (Headers.objects l)) ]
+      | None => wbad
+      end
+  | WL [WI 7; fs] =>
+      match un_list un_fentry fs with
+      | Some l =>
+          wok [ WL (map (fun ns => WL [WI (fst ns); WL (map enc_lbl (snd ns))]) (FnSelect.select l));
+                wbool (FnSelect.no_redefinition (FnSelect.cpp_defs l)) ]
+      | None => wbad
       end
   | _ => wbad
   end.
